@@ -57,6 +57,11 @@ def handleServerResult (r : ServerResult) (rs : Server) (out : Array Dgram) : Re
     | some p => pure (rs, out.push (addr, p))
     | none => pure (rs, out)
 
+/-- `UdpSocket::recv_from(&mut self.buffer)`: a datagram longer than the buffer is cut to the buffer's size
+    (the excess is discarded by the kernel); `cap` is the transport's buffer size as read from the source
+    (`Generated/Consts`: `TRANSPORT_SERVER_BUFFER`, `TRANSPORT_CLIENT_BUFFER`) -/
+def recvFrom (cap : Nat) (d : Dgram) : Dgram := (d.1, d.2.take cap)
+
 /-- the `recv_from` loop of `update` -/
 def serverRecvLoop (a : AEAD) (g : ServerGlue) : List Dgram → Array Dgram → Res Empty (ServerGlue × Array Dgram)
   | [], out => pure (g, out)
